@@ -44,6 +44,7 @@ type concDoc struct {
 
 type concCase struct {
 	Kind    string
+	Scheme  string // circuit-key scheme
 	Store   string
 	Prefix  []string
 	Threads [][]string
@@ -62,7 +63,7 @@ func (c concCase) String() string {
 	if c.Timer {
 		tm = " || set-timeout"
 	}
-	return fmt.Sprintf("%s/%s prefix=[%s] threads=[%s%s]", c.Kind, c.Store, strings.Join(c.Prefix, " "), strings.Join(t, " || "), tm)
+	return fmt.Sprintf("%s/%s/%s-keys prefix=[%s] threads=[%s%s]", c.Kind, c.Store, c.Scheme, strings.Join(c.Prefix, " "), strings.Join(t, " || "), tm)
 }
 
 // concAlphabet is the per-kind alphabet of thread ops and sequential prefixes.
@@ -100,7 +101,19 @@ func concAlphabets(thorough bool) []concAlphabet {
 	return a
 }
 
+// concCases crosses the interleaving cases with the circuit-key schemes (world_test.go): every
+// case under "wide" (the prefix' HTLC k1 on an SCID alias; the links' HTLCs k5 on another alias,
+// k6 on a confirmed channel), and the quick-tier cases under "plain" (thorough: and "edge").
 func concCases(thorough bool) []concCase {
+	if thorough {
+		// the two small twin sets first: the deadline, if it strikes, caps the large set
+		out := append(concCasesOf(false, "edge"), concCasesOf(false, "plain")...)
+		return append(out, concCasesOf(true, "wide")...)
+	}
+	return append(concCasesOf(false, "wide"), concCasesOf(false, "plain")...)
+}
+
+func concCasesOf(thorough bool, scheme string) []concCase {
 	var out []concCase
 	for _, al := range concAlphabets(thorough) {
 		for _, store := range []string{"kv", "sql"} {
@@ -113,16 +126,16 @@ func concCases(thorough bool) []concCase {
 						if strings.HasPrefix(a, "r:") && len(pre) == 0 || strings.HasPrefix(b, "r:") && len(pre) == 0 {
 							continue
 						}
-						out = append(out, concCase{Kind: al.Kind, Store: store, Prefix: pre, Threads: [][]string{{a}, {b}}})
+						out = append(out, concCase{Kind: al.Kind, Scheme: scheme, Store: store, Prefix: pre, Threads: [][]string{{a}, {b}}})
 					}
 				}
 				if leavesOnePartial(pre) {
 					// the prefix' HTLC times out while one link (thorough: two links) is active
 					for i, a := range al.Ops {
-						out = append(out, concCase{Kind: al.Kind, Store: store, Prefix: pre, Threads: [][]string{{a}}, Timer: true})
+						out = append(out, concCase{Kind: al.Kind, Scheme: scheme, Store: store, Prefix: pre, Threads: [][]string{{a}}, Timer: true})
 						for j, b := range al.Ops {
 							if thorough && j >= i {
-								out = append(out, concCase{Kind: al.Kind, Store: store, Prefix: pre, Threads: [][]string{{a}, {b}}, Timer: true})
+								out = append(out, concCase{Kind: al.Kind, Scheme: scheme, Store: store, Prefix: pre, Threads: [][]string{{a}, {b}}, Timer: true})
 							}
 						}
 					}
@@ -135,7 +148,7 @@ func concCases(thorough bool) []concCase {
 								if !strings.HasPrefix(a, "h:") || !strings.HasPrefix(a2, "h:") || !strings.HasPrefix(b, "h:") {
 									continue
 								}
-								out = append(out, concCase{Kind: al.Kind, Store: store, Prefix: pre, Threads: [][]string{{a, a2}, {b}}})
+								out = append(out, concCase{Kind: al.Kind, Scheme: scheme, Store: store, Prefix: pre, Threads: [][]string{{a, a2}, {b}}})
 							}
 						}
 					}
@@ -193,7 +206,7 @@ type threadOp struct {
 func runSchedule(c concCase, sched []int, rep reporter, st *Stats, logf func(string, ...any)) (ex concExec, err error) {
 	ex.snapshots = map[string]bool{}
 	ex.serial = true
-	w, err := newWorld(worldOpts{kind: c.Kind, stores: []string{c.Store}, rep: rep, st: st, logf: logf})
+	w, err := newWorld(worldOpts{kind: c.Kind, scheme: c.Scheme, stores: []string{c.Store}, rep: rep, st: st, logf: logf})
 	if err != nil {
 		return ex, err
 	}
@@ -463,7 +476,7 @@ func exploreCase(run *evid.Run, c concCase, bound int, deadline time.Time, st *S
 		stack = stack[:len(stack)-1]
 		var cur []int
 		rep := func(sig, what string, _, _ []string) {
-			theGate.report(run, "conc-"+sig, what, replayDoc{Kind: c.Kind, Stores: []string{c.Store},
+			theGate.report(run, "conc-"+sig, what, replayDoc{Kind: c.Kind, Scheme: c.Scheme, Stores: []string{c.Store},
 				Conc: &concDoc{Prefix: c.Prefix, Threads: c.Threads, Schedule: append([]int{}, cur...), Bound: bound, Timer: c.Timer}}, nil)
 		}
 		var (
@@ -474,7 +487,7 @@ func exploreCase(run *evid.Run, c concCase, bound int, deadline time.Time, st *S
 			defer func() {
 				if v := recover(); v != nil {
 					theGate.report(run, "panic:conc:"+c.Kind+":"+firstLine(fmt.Sprint(v)), fmt.Sprintf("panic in %s under schedule %v: %v\n%s", c, sched, v, debug.Stack()),
-						replayDoc{Kind: c.Kind, Stores: []string{c.Store}, Conc: &concDoc{Prefix: c.Prefix, Threads: c.Threads, Schedule: sched, Bound: bound, Timer: c.Timer}}, nil)
+						replayDoc{Kind: c.Kind, Scheme: c.Scheme, Stores: []string{c.Store}, Conc: &concDoc{Prefix: c.Prefix, Threads: c.Threads, Schedule: sched, Bound: bound, Timer: c.Timer}}, nil)
 					err = fmt.Errorf("panic")
 				}
 			}()
@@ -649,7 +662,7 @@ func replayConcDoc(doc replayDoc, rep reporter, logf func(string, ...any)) int {
 	if len(doc.Stores) > 0 {
 		store = doc.Stores[0]
 	}
-	c := concCase{Kind: doc.Kind, Store: store, Prefix: doc.Conc.Prefix, Threads: doc.Conc.Threads, Timer: doc.Conc.Timer}
+	c := concCase{Kind: doc.Kind, Scheme: doc.Scheme, Store: store, Prefix: doc.Conc.Prefix, Threads: doc.Conc.Threads, Timer: doc.Conc.Timer}
 	if doc.Conc.Free {
 		// a free-running case has no schedule to replay: it is executed 20 times
 		n := 0
